@@ -563,6 +563,12 @@ func (n *TreeNodeInstance) dispatchMsgToProtocol(onetMsg *ProtocolMsg) error {
 
 	n.rx.add(uint64(onetMsg.Size))
 
+	// The sender token comes from the wire and is dereferenced below. A panic
+	// in this goroutine would take the whole server down.
+	if onetMsg.From == nil {
+		return xerrors.New("message without sender token")
+	}
+
 	// if message comes from parent, dispatch directly
 	// if messages come from children we must aggregate them
 	// if we still need to wait for additional messages, we return
